@@ -77,13 +77,44 @@ def perm_views(p):
     return [flat(p["exists"]), flat(p["existsi"]), flat(p["locked"]), g]
 
 
+MASK = (1 << 61) - 1
+
+
+def r_hash(xs):
+    """= Resync/Check.v r_hash"""
+    acc = 7
+    for x in xs:
+        acc = (acc * 1000003 + x + 1) & MASK
+    return acc
+
+
+def opt_code(x, none=0):
+    return 0 if x == none else x + 1
+
+
+def enc_state(q, cnrs):
+    """= Meta/Check.v enc_state, computed on the dump of the real database"""
+    present = [c for c in cnrs if c["present"]]
+    out = [q, len(present)]
+    for c in present:
+        out += [c["c"], 1 if c["cgc"] else 0, len(c["objs"])]
+        for o in c["objs"]:
+            out += [o["id"], o["t"], o["sz"], opt_code(o["exp"], -1), opt_code(o["as"]), opt_code(o["pid"]),
+                    opt_code(o["fi"]), opt_code(o["sp"]), opt_code(o["er"], -1), opt_code(o["ei"], -1),
+                    1 if o["phy"] else 0, 1 if o["root"] else 0]
+        out.append(len(c["garb"]))
+        for g in c["garb"]:
+            out += [g[0], 0 if g[1] == 0 else 1]
+        out += list(c["cnt"])
+    return out
+
+
 def perm_digest(c, p):
-    st = M.enc_state({"epoch": c["q"], "cnrs": p["cnrs"]})
-    fl = list(st)
+    fl = enc_state(c["q"], p["cnrs"])
     for v in perm_views(p):
         fl.append(len(v))
         fl += v
-    return M.hash_list(fl)
+    return r_hash(fl)
 
 
 def coq_case(c):
